@@ -548,9 +548,16 @@ func unpackNodes(node *yaml.Node) []*yaml.Node {
 		}
 
 		if part.Alias != nil {
-			if isMerge {
+			switch {
+			case isMerge:
 				nodes = append(nodes, resolveMapAlias(part, node).Content...)
-			} else {
+			case node.Kind == yaml.MappingNode && i%2 == 0:
+				// `*anchor : value` - the key is what the anchor holds, not the name of the anchor.
+				key := *part.Alias
+				key.Anchor = ""
+				key.Line, key.Column = part.Line, part.Column
+				nodes = append(nodes, &key)
+			default:
 				nodes = append(nodes, resolveMapAlias(part, part))
 			}
 			isMerge = false
@@ -716,6 +723,13 @@ func mappingNodes(node *yaml.Node) []yamlMap {
 			key = nil
 		} else {
 			key = child
+			if key.Alias != nil {
+				// `*anchor : value` - the key is what the anchor holds, not the name of the anchor.
+				k := *key.Alias
+				k.Anchor = ""
+				k.Line, k.Column = key.Line, key.Column
+				key = &k
+			}
 		}
 	}
 	return m
